@@ -343,6 +343,56 @@ theorem encryptSubjectSpec_assertions (A : Aead) (k n : Bytes) (e : Env) :
     (encryptSubjectSpec A k n e).assertions = e.assertions := by
   cases e <;> rfl
 
+theorem encryptRefusal_eq_some {e : Env} {x : String} :
+    encryptRefusal e = some x ↔
+      (x = "AlreadyEncrypted" ∧ e.subject.isEncrypted = true) ∨
+      (x = "AlreadyElided" ∧ e.isElided = true) := by
+  cases e with
+  | node s as d =>
+    simp only [encryptRefusal, Env.subject, Env.isElided, Bool.false_eq_true, and_false, or_false]
+    cases s.isEncrypted
+    · simp
+    · simp [eq_comm]
+  | encrypted m d => simp [encryptRefusal, Env.subject, Env.isEncrypted, Env.isElided, eq_comm]
+  | elided d => simp [encryptRefusal, Env.subject, Env.isEncrypted, Env.isElided, eq_comm]
+  | _ => simp [encryptRefusal, Env.subject, Env.isEncrypted, Env.isElided]
+
+/-- the closed form under the hypotheses the property theorems take -/
+theorem encryptSubject_eq' (h : Hash) (A : Aead) (k n : Bytes) {e : Env} (hi : Inv h e)
+    (hH : ∀ b, (h.H b).Valid) :
+    encryptSubject h A k n e =
+      match encryptRefusal e with
+      | some x => .err x
+      | none => .ok (encryptSubjectSpec A k n e) :=
+  encryptSubject_eq h A k n hi (digest_valid hH (inv_subject hi))
+
+theorem encryptSubject_ok (h : Hash) (A : Aead) (k n : Bytes) {e r : Env} (hi : Inv h e)
+    (hH : ∀ b, (h.H b).Valid) (hr : encryptSubject h A k n e = .ok r) :
+    r = encryptSubjectSpec A k n e ∧ encryptRefusal e = none := by
+  rw [encryptSubject_eq' h A k n hi hH] at hr
+  cases hf : encryptRefusal e with
+  | some x => rw [hf] at hr; cases hr
+  | none => rw [hf] at hr; cases hr; exact ⟨rfl, rfl⟩
+
+theorem encryptSubjectSpec_inv (h : Hash) (A : Aead) (k n : Bytes) {e : Env} (hi : Inv h e)
+    (hH : ∀ b, (h.H b).Valid) : Inv h (encryptSubjectSpec A k n e) := by
+  have hv := digest_valid hH (inv_subject hi)
+  cases e with
+  | node s as d =>
+    obtain ⟨hw, hc⟩ := hi
+    simp only [WF] at hw
+    simp only [Canon] at hc
+    simp only [Env.subject] at hv
+    refine ⟨?_, ?_⟩
+    · simp only [encryptSubjectSpec, encSubj, WF, Env.digest]
+      exact ⟨optDigest_encryptWithDigest A k n _ hv, hw.2.1, hw.2.2⟩
+    · simp only [encryptSubjectSpec, encSubj, Canon]
+      exact ⟨hv, hc.2⟩
+  | _ =>
+    simp only [Env.subject] at hv
+    exact ⟨by simp only [encryptSubjectSpec, encSubj, WF]; exact optDigest_encryptWithDigest A k n _ hv,
+      by simp only [encryptSubjectSpec, encSubj, Canon]; exact hv⟩
+
 /-! ### the decoder never panics (self-contained version of C06 `decode_no_panic`) -/
 
 section
@@ -503,7 +553,100 @@ theorem decryptSubject_node_form {k : Bytes} {m : EncMsg} {d0 dd d : Digest} {as
       | .panic y => .panic y := by
   unfold decryptSubject
   simp only [Env.subject, hd, ho, hx]
+  rfl
 
+end
+
+section
+variable (h : Hash) (A : Aead)
+
+theorem decryptSubject_ok_inv {k : Bytes} {r x : Env} (hr : decryptSubject h A k r = .ok x) :
+    ∃ m d0 pt dd rs, r.subject = .encrypted m d0 ∧ decryptMsg A k m = some pt ∧
+      m.optDigest = some dd ∧ decode h pt = .ok rs ∧ rs.digest = dd ∧
+      ((r = .encrypted m d0 ∧ x = rs) ∨
+        ∃ as d, r = .node (.encrypted m d0) as d ∧ newNodeUnchecked h rs as = .ok x ∧ x.digest = d) := by
+  cases hsub : r.subject with
+  | encrypted m d0 =>
+    cases hd : decryptMsg A k m with
+    | none => rw [decryptSubject_dec_none h A hsub hd] at hr; cases hr
+    | some pt =>
+      cases ho : m.optDigest with
+      | none =>
+        unfold decryptSubject at hr
+        simp only [hsub, hd, ho] at hr
+        cases hr
+      | some dd =>
+        cases hx : decode h pt with
+        | ok rs =>
+          rcases subject_encrypted_cases hsub with rfl | ⟨as, d, rfl⟩
+          · rw [decryptSubject_leaf_form h A hd ho hx] at hr
+            split at hr
+            · cases hr
+            · rename_i hne
+              cases hr
+              exact ⟨m, d0, pt, dd, _, rfl, hd, ho, hx, by simpa using hne, Or.inl ⟨rfl, rfl⟩⟩
+          · rw [decryptSubject_node_form h A hd ho hx] at hr
+            split at hr
+            · cases hr
+            · rename_i hne
+              cases hn : newNodeUnchecked h rs as with
+              | ok r' =>
+                rw [hn] at hr
+                dsimp only at hr
+                split at hr
+                · cases hr
+                · rename_i hne2
+                  cases hr
+                  exact ⟨m, d0, pt, dd, rs, rfl, hd, ho, hx, by simpa using hne,
+                    Or.inr ⟨as, d, rfl, hn, by simpa using hne2⟩⟩
+              | err y => rw [hn] at hr; cases hr
+              | panic y => rw [hn] at hr; cases hr
+        | err y =>
+          unfold decryptSubject at hr
+          simp only [hsub, hd, ho, hx] at hr
+          cases hr
+        | panic y =>
+          unfold decryptSubject at hr
+          simp only [hsub, hd, ho, hx] at hr
+          cases hr
+  | _ =>
+    rw [decryptSubject_not_encrypted h A (by rw [hsub]; rfl)] at hr
+    cases hr
+
+theorem decryptSubject_np {k : Bytes} {r : Env} (hc : Canon r) (s : String) :
+    decryptSubject h A k r ≠ .panic s := by
+  intro hr
+  cases hsub : r.subject with
+  | encrypted m d0 =>
+    cases hd : decryptMsg A k m with
+    | none => rw [decryptSubject_dec_none h A hsub hd] at hr; cases hr
+    | some pt =>
+      cases ho : m.optDigest with
+      | none =>
+        unfold decryptSubject at hr
+        simp only [hsub, hd, ho] at hr
+        cases hr
+      | some dd =>
+        cases hx : decode h pt with
+        | ok rs =>
+          rcases subject_encrypted_cases hsub with rfl | ⟨as, d, rfl⟩
+          · rw [decryptSubject_leaf_form h A hd ho hx] at hr
+            split at hr <;> cases hr
+          · rw [decryptSubject_node_form h A hd ho hx] at hr
+            simp only [Canon] at hc
+            rw [newNodeUnchecked_ne h hc.2.2.1] at hr
+            dsimp only at hr
+            split at hr
+            · cases hr
+            · split at hr <;> cases hr
+        | err y =>
+          unfold decryptSubject at hr
+          simp only [hsub, hd, ho, hx] at hr
+          cases hr
+        | panic y => exact decode_np h pt y hx
+  | _ =>
+    rw [decryptSubject_not_encrypted h A (by rw [hsub]; rfl)] at hr
+    cases hr
 end
 
 /-! ### not every `Inv` envelope round-trips through the bytes -/
@@ -582,6 +725,135 @@ theorem uncompress_ok {e z : Env} (hr : uncompress h Z e = .ok z) :
       · cases hr
       · cases hr
   · cases hr
+
+end
+
+/-! ### closed forms of `compress_subject` / `uncompress_subject` -/
+
+/-- the compressed element `compress` makes -/
+def compSubj (Z : Deflate) (s : Env) : Env :=
+  .compressed (compressedOf Z (encode s)) s.digest
+
+/-- the result of `compress_subject` when the subject is not yet compressed and it does
+not refuse -/
+def compressSubjectSpec (Z : Deflate) : Env → Env
+  | .node s as d => .node (compSubj Z s) as d
+  | e => compSubj Z e
+
+section
+variable (h : Hash) (Z : Deflate)
+
+theorem compress_eq_ite {e : Env} (hc : e.isCompressed = false) :
+    compress Z e =
+      if e.isEncrypted then .err "AlreadyEncrypted"
+      else if e.isElided then .err "AlreadyElided"
+      else .ok (compSubj Z e) := by
+  cases e with
+  | compressed c d => cases hc
+  | _ => rfl
+
+theorem compressSubject_eq {e : Env} (hi : Inv h e) (hc : e.subject.isCompressed = false) :
+    compressSubject h Z e =
+      if e.subject.isEncrypted then .err "AlreadyEncrypted"
+      else if e.subject.isElided then .err "AlreadyElided"
+      else .ok (compressSubjectSpec Z e) := by
+  unfold compressSubject
+  rw [if_neg (by simp [hc]), compress_eq_ite Z hc]
+  by_cases he : e.subject.isEncrypted = true
+  · rw [if_pos he, if_pos he]; rfl
+  · by_cases hl : e.subject.isElided = true
+    · rw [if_neg he, if_pos hl, if_neg he, if_pos hl]; rfl
+    · rw [if_neg he, if_neg hl, if_neg he, if_neg hl]
+      show replaceSubject h e (compSubj Z e.subject) = _
+      cases e with
+      | node s as d =>
+        have hcan := hi.2
+        have hw := hi.1
+        simp only [Canon] at hcan
+        simp only [WF] at hw
+        have hd : (compSubj Z s).digest = s.digest := rfl
+        simp only [Env.subject]
+        rw [replaceSubject_node h hi.2 rfl, mkNode_asc h hcan.2.2.2.1, hd, ← hw.2.2]
+        rfl
+      | _ => exact replaceSubject_nil h rfl
+
+theorem uncompress_digest_eq {e z : Env} (hr : uncompress h Z e = .ok z) : z.digest = e.digest := by
+  obtain ⟨c, d, data, rfl, _, _, hd⟩ := uncompress_ok h Z hr
+  exact hd
+
+theorem uncompress_isCompressed {e z : Env} (hr : uncompress h Z e = .ok z) :
+    e.isCompressed = true := by
+  obtain ⟨c, d, data, rfl, _, _, _⟩ := uncompress_ok h Z hr
+  rfl
+
+theorem uncompress_not_compressed {e : Env} (hc : e.isCompressed = false) :
+    uncompress h Z e = .err "NotCompressed" := by
+  cases e with
+  | compressed c d => cases hc
+  | _ => rfl
+
+theorem uncompress_np (e : Env) (s : String) : uncompress h Z e ≠ .panic s := by
+  intro hr
+  unfold uncompress at hr
+  split at hr
+  · split at hr
+    · cases hr
+    · rename_i data _
+      split at hr
+      · split at hr <;> cases hr
+      · cases hr
+      · rename_i y hy
+        exact decode_np h data y hy
+  · cases hr
+
+/-- `uncompress_subject` of a node keeps the uncompressed envelope as the subject, even when
+it is itself a node, and keeps the assertion list -/
+theorem uncompressSubject_node_form {cs s s0 : Env} {as : List Env} {d : Digest}
+    (hi : Inv h (.node s0 as d)) (h0 : cs.digest = s0.digest) (hs : uncompress h Z cs = .ok s) :
+    uncompressSubject h Z (.node cs as d) = .ok (.node s as d) := by
+  unfold uncompressSubject
+  simp only [Env.subject, uncompress_isCompressed h Z hs, if_true, hs]
+  exact rebuild_node h hi ((uncompress_digest_eq h Z hs).trans h0)
+
+theorem uncompressSubject_node_unfold (cs : Env) (as : List Env) (d : Digest) :
+    uncompressSubject h Z (.node cs as d) =
+      if cs.isCompressed then (uncompress h Z cs).bind fun s => newNodeUnchecked h s as
+      else .ok (.node cs as d) := by
+  unfold uncompressSubject
+  rfl
+
+theorem uncompressSubject_nonnode_form {e : Env} (hn : e.isNode = false)
+    (hc : e.isCompressed = true) : uncompressSubject h Z e = uncompress h Z e := by
+  cases e with
+  | node s as d => cases hn
+  | compressed c d =>
+    unfold uncompressSubject
+    simp only [Env.subject, Env.isCompressed, if_true]
+    cases uncompress h Z (.compressed c d) <;> rfl
+  | _ => cases hc
+
+theorem uncompressSubject_not_compressed {e : Env} (hc : e.subject.isCompressed = false) :
+    uncompressSubject h Z e = .ok e := by
+  unfold uncompressSubject
+  rw [if_neg (by simp [hc])]
+
+theorem compressSubjectSpec_inv {e : Env} (hi : Inv h e) (hv : e.subject.digest.Valid) :
+    Inv h (compressSubjectSpec Z e) := by
+  cases e with
+  | node s as d =>
+    obtain ⟨hw, hc⟩ := hi
+    simp only [WF] at hw
+    simp only [Canon] at hc
+    simp only [Env.subject] at hv
+    refine ⟨?_, ?_⟩
+    · simp only [compressSubjectSpec, WF]
+      exact ⟨by simp only [compSubj, WF], hw.2.1, hw.2.2⟩
+    · simp only [compressSubjectSpec, Canon]
+      exact ⟨by simp only [compSubj, Canon]; exact hv, hc.2⟩
+  | _ =>
+    simp only [Env.subject] at hv
+    exact ⟨by simp only [compressSubjectSpec, compSubj, WF],
+      by simp only [compressSubjectSpec, compSubj, Canon]; exact hv⟩
 
 end
 
